@@ -17,7 +17,7 @@ CONSTANTS Templates, Export
 
 Space(t) == CASE t = "branch" -> Branch [] t = "loop" -> LoopP [] t = "nested" -> Nested
               [] t = "straight" -> Straight [] t = "call" -> CallP [] t = "rec" -> RecP
-              [] t = "closure" -> Closure [] t = "closure2" -> Closure2 [] t = "hoistarms" -> HoistArms [] t = "bigloop" -> BigLoop
+              [] t = "closure" -> Closure [] t = "closure2" -> Closure2 [] t = "sliceidx" -> SliceIdx [] t = "hoistarms" -> HoistArms [] t = "bigloop" -> BigLoop
               [] t = "selectone" -> SelectOne [] t = "ivwidth" -> IVWidth [] t = "loopbranch" -> LoopBranch [] t = "rangebranch" -> RangeBranch [] t = "strbranch" -> StrBranch
               [] t = "sharedcmp" -> SharedCmp [] t = "fltbranch" -> FltBranch [] t = "extract" -> Extract [] t = "ubig" -> UBig [] t = "consttype" -> ConstType [] t = "sibloops" -> SibLoops [] t = "dectree" -> DecTree [] t = "labeled" -> Labeled [] t = "orand" -> OrAnd [] t = "switch2" -> Switch2
               [] OTHER -> BigConst
